@@ -2,11 +2,11 @@
 # tools/run_all.sh quick|thorough [IDs...] : run the checks one after another, print one summary line each
 TIER=${1:-quick}; shift
 IDS=${@:-C01 C02 C03 C04 C05 C06 C07 C08 C09 C10 C11 C12 C13 C14 C15 C16 C17 C18 C19 C20}
-cd /verif
+cd "$(dirname "$0")/.."
 for P in $IDS; do
   S=$(date +%s)
-  ./check $P --tier $TIER > /tmp/runall_$P.log 2>&1; RC=$?
+  ./check $P --tier $TIER > /tmp/runall_${TIER}_$P.log 2>&1; RC=$?
   E=$(date +%s)
-  echo "$P rc=$RC $((E-S))s $(grep -E "^$P " /tmp/runall_$P.log | cut -c1-160)"
-  grep -E "^(VIOLATION|HARNESS-ERROR|note:)" /tmp/runall_$P.log | cut -c1-220 | head -6
+  echo "$P rc=$RC $((E-S))s $(grep -E "^$P " /tmp/runall_${TIER}_$P.log | cut -c1-160)"
+  grep -E "^(VIOLATION|HARNESS-ERROR|note:)" /tmp/runall_${TIER}_$P.log | cut -c1-220 | head -6
 done
